@@ -22,6 +22,7 @@ import (
 	logstore "github.com/echovault/sugardb/internal/aof/log"
 	"github.com/echovault/sugardb/internal/aof/preamble"
 	"github.com/echovault/sugardb/internal/clock"
+	"github.com/echovault/sugardb/verifhook"
 	"log"
 	"sync"
 )
@@ -161,9 +162,12 @@ func (engine *Engine) LogCommand(database int, command []byte) {
 }
 
 func (engine *Engine) RewriteLog() error {
+	verifhook.Yield("rewrite.lock")
+	defer verifhook.Note("rewrite.unlocked")
 	engine.mut.Lock()
 	defer engine.mut.Unlock()
 
+	verifhook.Note("rewrite.locked")
 	engine.startRewriteFunc()
 	defer engine.finishRewriteFunc()
 
@@ -172,6 +176,7 @@ func (engine *Engine) RewriteLog() error {
 		return fmt.Errorf("rewrite log error: create preamble error: %+v", err)
 	}
 
+	verifhook.Yield("rewrite.after_preamble")
 	// Truncate the AOF file.
 	if err := engine.appendStore.Truncate(); err != nil {
 		return fmt.Errorf("rewrite log error: create aof error: %+v", err)
